@@ -46,6 +46,7 @@ type planLine struct {
 	Max     int64    `json:"max"`
 	Kind    string   `json:"kind"`
 	Level   int      `json:"level"`
+	Framing string   `json:"framing"` // "length" (default) | "chunked": sent by a hand-made client that hides the length
 }
 
 type reqRec struct {
@@ -80,6 +81,7 @@ type probeRec struct {
 	err     string
 	sum     [32]byte
 	encHdr  string
+	te      string // Transfer-Encoding as seen by the handler
 }
 
 type probes struct {
@@ -109,6 +111,7 @@ func (p *probes) ServeHTTP(w http.ResponseWriter, r *http.Request) {
 	rec := p.get(id, true)
 	rec.started = true
 	rec.encHdr = r.Header.Get("Content-Encoding")
+	rec.te = strings.Join(r.TransferEncoding, ",")
 	h := sha256.New()
 	n, err := io.Copy(h, r.Body)
 	rec.n = n
@@ -129,6 +132,7 @@ func (p *probes) ServeHTTP(w http.ResponseWriter, r *http.Request) {
 type capRec struct {
 	n      int64
 	encHdr string
+	body   []byte // the bytes on the wire, kept only when asked for (X-Verif-Keep)
 }
 
 type capture struct {
@@ -137,9 +141,16 @@ type capture struct {
 }
 
 func (c *capture) ServeHTTP(w http.ResponseWriter, r *http.Request) {
-	n, _ := io.Copy(io.Discard, r.Body)
+	var n int64
+	var kept []byte
+	if r.Header.Get("X-Verif-Keep") != "" {
+		kept, _ = io.ReadAll(r.Body)
+		n = int64(len(kept))
+	} else {
+		n, _ = io.Copy(io.Discard, r.Body)
+	}
 	c.mu.Lock()
-	c.m[r.Header.Get("X-Verif-Id")] = capRec{n: n, encHdr: r.Header.Get("Content-Encoding")}
+	c.m[r.Header.Get("X-Verif-Id")] = capRec{n: n, encHdr: r.Header.Get("Content-Encoding"), body: kept}
 	c.mu.Unlock()
 	w.WriteHeader(http.StatusOK)
 }
@@ -305,10 +316,47 @@ func statusClass(code int) string {
 	return "other"
 }
 
+// hidden hides the length of a body from net/http, so that the request is sent with
+// Transfer-Encoding: chunked and the server sees ContentLength = -1.
+type hidden struct{ r io.Reader }
+
+func (h hidden) Read(p []byte) (int, error) { return h.r.Read(p) }
+
+// plainClient is a hand-made client: no confighttp round trippers, nothing added to the request.
+var plainClient = &http.Client{Timeout: 60 * time.Second, Transport: &http.Transport{DisableCompression: true, MaxIdleConnsPerHost: 16}}
+
+// doChunked sends the given wire bytes (already encoded by the client under test) with unknown length.
+func (e *env) doChunked(url, id, encHdr string, wire []byte) (int, error) {
+	req, err := http.NewRequest(http.MethodPost, url, io.NopCloser(hidden{bytes.NewReader(wire)}))
+	if err != nil {
+		return 0, err
+	}
+	req.ContentLength = -1
+	req.Header.Set("X-Verif-Id", id)
+	req.Header.Set("Content-Type", "application/octet-stream")
+	if encHdr != "" {
+		req.Header.Set("Content-Encoding", encHdr)
+	}
+	resp, err := plainClient.Do(req)
+	if err != nil {
+		return 0, err
+	}
+	_, _ = io.Copy(io.Discard, resp.Body)
+	resp.Body.Close()
+	return resp.StatusCode, nil
+}
+
 func (e *env) do(c *http.Client, url, id, enc string, body []byte) (int, error) {
+	return e.doKeep(c, url, id, enc, body, false)
+}
+
+func (e *env) doKeep(c *http.Client, url, id, enc string, body []byte, keep bool) (int, error) {
 	req, err := http.NewRequest(http.MethodPost, url, bytes.NewReader(body))
 	if err != nil {
 		return 0, err
+	}
+	if keep {
+		req.Header.Set("X-Verif-Keep", "1")
 	}
 	req.Header.Set("X-Verif-Id", id)
 	req.Header.Set("Content-Type", "application/octet-stream")
@@ -338,7 +386,8 @@ func (e *env) runOne(p planLine, seed int64) (outLine, error) {
 	}
 	// 1. wire length, measured with the same client against a server without the middleware
 	cid := fmt.Sprintf("c%d", p.ID)
-	if _, err := e.do(c, e.capURL, cid, p.Enc, body); err != nil {
+	chunked := p.Framing == "chunked"
+	if _, err := e.doKeep(c, e.capURL, cid, p.Enc, body, chunked); err != nil {
 		return outLine{}, fmt.Errorf("capture request failed: %w", err)
 	}
 	e.cap.mu.Lock()
@@ -356,7 +405,11 @@ func (e *env) runOne(p planLine, seed int64) (outLine, error) {
 	for attempts < 3 {
 		attempts++
 		pid := fmt.Sprintf("p%d-%d", p.ID, attempts)
-		code, err = e.do(c, url, pid, p.Enc, body)
+		if chunked {
+			code, err = e.doChunked(url, pid, cr.encHdr, cr.body)
+		} else {
+			code, err = e.do(c, url, pid, p.Enc, body)
+		}
 		rec = e.probe.get(pid, false)
 		if rec != nil {
 			select {
@@ -377,8 +430,12 @@ func (e *env) runOne(p planLine, seed int64) (outLine, error) {
 	if netErr == "" {
 		o.Status = statusClass(code)
 	}
+	framing := p.Framing
+	if framing == "" {
+		framing = "length"
+	}
 	extra := map[string]any{"size": p.Size, "kind": p.Kind, "level": p.Level, "code": code, "attempts": attempts,
-		"wire_enc": cr.encHdr}
+		"wire_enc": cr.encHdr, "framing": framing}
 	if netErr != "" {
 		extra["neterr"] = netErr
 	}
@@ -393,6 +450,7 @@ func (e *env) runOne(p planLine, seed int64) (outLine, error) {
 		}
 		extra["rerr_text"] = rec.err
 		extra["handler_enc"] = rec.encHdr
+		extra["handler_te"] = rec.te
 	}
 	return outLine{ID: p.ID, Req: reqRec{Enc: p.Enc, Enabled: p.Enabled, N: n, W: cr.n, Max: p.Max}, Obs: o, Extra: extra}, nil
 }
